@@ -111,6 +111,25 @@ def random_history(rng, geom, n):
     return ops
 
 
+def directed_histories(geom):
+    """Reads between partial removals (what was read before must not survive a removal), on charged clusters
+    inside the area."""
+    r, c, sv, sh = geom
+    inside = [{"n": k + 1, "ver": ((k * 7) % r) * sv + sv // 2, "hor": ((k * 5) % c) * sh + sh // 2, "label": 0} for k in range(4)]
+    out = []
+    for i in range(3):
+        for j in range(3):
+            out.append([{"op": "add_clusters", "arg": inside[:3]}, {"op": "read", "arg": []}, {"op": "remove", "arg": [i]},
+                        {"op": "read", "arg": []}, {"op": "remove", "arg": [j]}, {"op": "read", "arg": []}])
+    out.append([{"op": "add_clusters", "arg": inside}, {"op": "read", "arg": []}, {"op": "remove", "arg": [0, 2]},
+                {"op": "read", "arg": []}, {"op": "add_array", "arg": [1] * (r * c)}, {"op": "read", "arg": []}])
+    out.append([{"op": "add_array", "arg": [2] * (r * c)}, {"op": "add_clusters", "arg": inside[:2]}, {"op": "read", "arg": []},
+                {"op": "remove", "arg": [1]}, {"op": "read", "arg": []}, {"op": "remove", "arg": [0]}, {"op": "read", "arg": []}])
+    out.append([{"op": "add_clusters", "arg": inside[:2]}, {"op": "read", "arg": []}, {"op": "read", "arg": []},
+                {"op": "remove", "arg": [1]}, {"op": "read", "arg": []}, {"op": "reset", "arg": []}, {"op": "read", "arg": []}])
+    return out
+
+
 def run(ctx):
     res, cases = ctx.model_check("MC_Charge", f"MC_Charge_{ctx.tier}.cfg", export=True, timeout=1800,
                                  note="every history of MAXLEN operations over array additions, cluster additions at "
@@ -121,7 +140,7 @@ def run(ctx):
     ctx.sample({"history": cases[3], "events": results[3]})
     validate(ctx, cases, results, GEOM, "replay")
     for geom in [(2, 3, 4, 6), (1, 3, 5, 5), (3, 2, 10, 7)][: ctx.pick(2, 3)]:
-        rnd = [random_history(ctx.rng, geom, ctx.rng.randint(2, 9)) for _ in range(ctx.pick(120, 3000))]
+        rnd = directed_histories(geom) + [random_history(ctx.rng, geom, ctx.rng.randint(2, 9)) for _ in range(ctx.pick(120, 3000))]
         results = run_all(rnd, geom)
         ctx.cov["recorded_random"] += len(rnd)
         validate(ctx, rnd, results, geom, f"random{geom[0]}x{geom[1]}")
